@@ -542,6 +542,23 @@ func c20(c *core.Ctx) {
 						}
 					}
 					c.Check(bad == "", key, x.Pos(), "blocking; other arms are ctx.Done() receives only", "the select around the frame send "+bad)
+					// "until … the context ends": the call's OWN context is among the arms on every path — a Done channel
+					// picked between two contexts leaves out one of them
+					if len(fn.Params) > 0 && core.TypeStr(fn.Params[0].Type()) == "context.Context" {
+						own := false
+						for i, st := range x.States {
+							if i == sendIdx || st.Dir != types.RecvOnly {
+								continue
+							}
+							if core.AllOrigins(st.Chan, func(o ssa.Value) bool {
+								dc, ok := o.(*ssa.Call)
+								return ok && dc.Call.IsInvoke() && dc.Call.Method.Name() == "Done" && core.AllOrigins(dc.Call.Value, func(cv ssa.Value) bool { return cv == ssa.Value(fn.Params[0]) })
+							}) {
+								own = true
+							}
+						}
+						c.Check(own, core.FuncName(fn)+":send-select:own-context-arm", x.Pos(), "one arm is always the Done channel of the call's own context (the first parameter)", "no arm of the select is, on every path, the Done channel of the call's own context: a sender parked on a full channel is not released when its context is cancelled or times out (it waits for the peer to finish or to receive)")
+					}
 				}
 			})
 		}
